@@ -482,10 +482,11 @@ def Histo.renderItem {α : Type} (A : Arith α) (env : Env) (h : Histo) (v : Vir
 def Histo.fullRender {α : Type} (A : Arith α) (env : Env) (h : Histo) (vt : VirtualTerm) : Res VirtualTerm :=
   h.items.zipIdx.foldlM (h.renderItem A env) vt
 
-/-- `HistoWriter.WriteForLine(line, key, val)` -/
+/-- `HistoWriter.WriteForLine(line, key, val)` (after 4855857: a line AT or beyond `len(items)` is ignored; the guard was
+`line > len(items)` and `line == len(items)` indexed out of range) -/
 def Histo.writeForLine {α : Type} (A : Arith α) (env : Env) (h : Histo) (vt : VirtualTerm) (line : Int) (key : Bytes) (val : Int) :
     Res (Histo × VirtualTerm) := do
-  if line > h.items.length then pure (h, vt)
+  if line ≥ h.items.length then pure (h, vt)
   else
     let klen := strLen env key
     let (ts, need) := if klen > h.textSpacing then (klen, true) else (h.textSpacing, false)
